@@ -675,12 +675,10 @@ func (p *nriPlugin) RemoveContainer(ctx context.Context, pod *api.PodSandbox, co
 			}
 			c.UpdateState(cache.ContainerStateExited)
 			m.updateTopologyZones()
-			// this request has no reply to carry updates of other containers
-			if updates := p.getPendingUpdates(nil); len(updates) > 0 {
-				if _, err := p.stub.UpdateContainers(updates); err != nil {
-					nri.Warn("%s: failed to update containers affected by the release: %v", event, err)
-				}
-			}
+			// This event has no reply to carry updates of other containers, and
+			// the runtime serves unsolicited updates under the same lock it holds
+			// while delivering this event, so they cannot be pushed from here
+			// either. They stay pending and go out with the next reply.
 		}
 	}
 
